@@ -8,6 +8,7 @@ resulting events are pushed back for future processing.
 import logging
 import time as _time
 from collections.abc import Callable
+from itertools import count
 from typing import TYPE_CHECKING
 
 from happysimulator.core.clock import Clock
@@ -15,7 +16,7 @@ from happysimulator.core.entity import Entity
 from happysimulator.core.event import (
     Event,
     _active_debugger_context,
-    reset_event_counter,
+    _global_next_sort_index,
 )
 from happysimulator.core.event_heap import EventHeap
 from happysimulator.core.protocols import Simulatable
@@ -74,8 +75,6 @@ class Simulation:
         fault_schedule: "FaultSchedule | None" = None,
         duration: float | None = None,
     ):
-        reset_event_counter()
-
         if duration is not None and end_time is not None:
             raise ValueError("Cannot specify both 'duration' and 'end_time'")
 
@@ -201,6 +200,11 @@ class Simulation:
         Events scheduled before ``run()`` is called are remembered so they can
         be replayed on ``control.reset()``.
         """
+        if self._is_running:
+            # Created outside the run loop (e.g. while paused): order them after
+            # everything the run has created so far.
+            for e in events if isinstance(events, list) else [events]:
+                e._sort_index = next(self._event_heap._event_counter)
         self._event_heap.push(events)
         if not self._is_running:
             self._save_event_specs(events)
@@ -281,11 +285,26 @@ class Simulation:
                 self._event_heap.size(),
             )
 
+        self._continue_event_numbering()
+
         # Set active contexts so SimFuture.resolve()/fail() can schedule events
         # and so ProcessContinuation can access the code debugger.
         with _active_sim_context(self._event_heap, self._clock):
             with _active_debugger_context(getattr(self, "_code_debugger", None)):
                 return self._run_loop()
+
+    def _continue_event_numbering(self) -> None:
+        """Number events created during the run after every event created before it.
+
+        Events created inside the run loop take their sort index from the
+        heap's own counter.  It must continue after the process-wide counter
+        so that, at equal timestamps, run-created events sort after pre-run
+        events (FIFO by creation order) and no two events of one simulation
+        share an id.
+        """
+        heap = self._event_heap
+        start = max(_global_next_sort_index(), next(heap._event_counter))
+        heap._event_counter = count(start)
 
     def _run_loop(self) -> SimulationSummary:
         """Inner loop extracted for clean active-context scoping."""
@@ -535,6 +554,7 @@ class Simulation:
             self._wall_start = _time.monotonic()
             self._is_running = True
             self._event_heap.set_current_time(self._current_time)
+            self._continue_event_numbering()
 
         with _active_sim_context(self._event_heap, self._clock):
             with _active_debugger_context(None):
